@@ -268,11 +268,21 @@ def orbit_triples(ck, rng, tier, seed):
     walks = c13.graph_walks(ck, "OrbitTriple", "OrbitTriple.cfg", st, rng, 1500 if tier == "quick" else 10 ** 9, "OrbitTriple")
     if not any(stp[0] in ("MoonMass", "HostMass") for w in walks for stp in w):
         raise MachineryError("vacuity: no mass change in the OrbitTriple walks")
+    # the star as tidal host (StarHost = TRUE): the planet's own orbit is its stellar orbit, set_stellar_distance updates that triple
+    rs = run_tlc("OrbitTriple", "OrbitTriple_starhost.cfg", coverage=True, timeout=300)
+    ck.add_tlc(rs, "OrbitTriple, star as tidal host (complete graph)")
+    if not rs.ok:
+        raise MachineryError("OrbitTriple_starhost: %s violated" % rs.violated)
+    walks_star = c13.graph_walks(ck, "OrbitTriple", "OrbitTriple_starhost.cfg", st, rng, 10 ** 9, "OrbitTriple_starhost")
+    if not any(stp[0] == "StellarDistance" for w in walks_star for stp in w):
+        raise MachineryError("vacuity: no StellarDistance step in the star-host walks")
     wd = scratch("c17orb")
     jobs = []
-    for form in ("scalar", "array", "inplace"):
+    all_walks = {}
+    for form in ("scalar", "array", "inplace", "star_scalar", "star_inplace"):
         p = os.path.join(wd, "orb_%s.json" % form)
-        json.dump({"form": form, "behaviours": walks}, open(p, "w"))
+        all_walks[form] = walks_star if form.startswith("star_") else walks
+        json.dump({"form": form.replace("star_", ""), "star_host": form.startswith("star_"), "behaviours": all_walks[form]}, open(p, "w"))
         env = dict(os.environ, PYTHONPATH=core.pythonpath(), PYTHONHASHSEED="0", NUMBA_NUM_THREADS="1", NUMBA_CACHE_DIR=core.private_numba_cache(form))
         jobs.append((form, p, subprocess.Popen([PY, "-m", "harness.orbit_driver", p], cwd=VERIF, env=env, stdin=subprocess.DEVNULL,
                                                stdout=open(p + ".log", "w"), stderr=subprocess.STDOUT)))
@@ -283,7 +293,7 @@ def orbit_triples(ck, rng, tier, seed):
         if pr.returncode != 0 or not os.path.exists(p + ".out.json"):
             raise MachineryError("orbit_driver failed: %s" % open(p + ".log").read()[-1200:])
         res = json.load(open(p + ".out.json"))["results"]
-        for beh, rb in zip(walks, res):
+        for beh, rb in zip(all_walks[form], res):
             total += rb["steps"]
             for stp in beh[:rb["steps"]]:
                 ck.case(("orbit-triple", form, stp[0], tuple(map(str, stp[1])), json.dumps(stp[2], sort_keys=True)), stp[0] != "Init")
@@ -301,7 +311,7 @@ def orbit_triples(ck, rng, tier, seed):
                              "after a mass change (world.set_geometry) and before the next orbit update the %s triple is Keplerian for the old masses only: n^2 a^3/(G(M+m)) - 1 = %.3g" % (
                                  rb["stale"][0]["orbit"], rb["stale"][0]["r_current"]), {"form": form, "stale": rb["stale"][:3]})
     ck.notes["orbit_triple_steps"] = total
-    ck.cov["traces_validated_against_impl"] += 3 * len(walks)
+    ck.cov["traces_validated_against_impl"] += 3 * len(walks) + 2 * len(walks_star)
 
 
 def orbit_registry_extension(ck, tier, seed):
